@@ -1,4 +1,5 @@
 import HailVerif.Model.ExprIR
+import HailVerif.Model.FnRegistry
 /-!
 # Reader for the IR text the Python renderers emit (driver code for C35 / C36 — not part of the model)
 
@@ -266,6 +267,12 @@ partial def toIR : Sexp → Except String IR
     | none, "dict", [a] => pure (.toDict (.toStream (← toIR a)))                          -- `hl.dict(array of pairs)`
     | none, "land", [a, b] => pure (.ite (← toIR a) (← toIR b) (.bool false))            -- `a & b` on booleans
     | none, "lor", [a, b] => pure (.ite (← toIR a) (.bool true) (← toIR b))
+    | none, _, _ =>
+      -- any other function: checked against the transcribed registry signatures (`FnRegistry.applyOk`, via `inferType`)
+      if (HailVerif.FnRegistry.signatures fn).isEmpty then throw s!"Apply {fn}"
+      else do
+        let as ← args.mapM toIR
+        return IR.applyFn fn (as.foldr IR.tcons IR.tnil) declared
     | _, _, _ => throw s!"Apply {fn}"
     pure (.ascribe body declared)
   | .list [.atom "EncodedLiteral", .atom t, .str _] => do pure (.na (← readType t))     -- an opaque constant of its declared type
